@@ -69,6 +69,9 @@ type kase struct {
 	ifs    string
 	params []string
 	vars   []string
+
+	scriptOnly bool   // a whole pinned script: interp vs bash only
+	pinClass   string // its known-finding class, if it is the witness of one
 }
 
 const prelude = `p() { printf '%s' "$#"; printf '<%s>' "$@"; }`
@@ -358,6 +361,11 @@ func genCase(r *rand.Rand, id int, wild bool) *kase {
 // ---- running a case ----------------------------------------------------------
 
 func (k *kase) finishScript() {
+	if k.scriptOnly {
+		k.Fails = []string{}
+		k.Params, k.Vars, k.IFS = []string{}, []string{}, []int{}
+		return
+	}
 	var sb strings.Builder
 	if k.IFSSet {
 		sb.WriteString("IFS=" + hxsplit.Ansi(k.ifs) + "; ")
@@ -687,6 +695,20 @@ var pinned = []struct {
 	{true, " \t\n", []string{"1", "2"}, nil, "\"a${arr[@]}\""},
 }
 
+// whole scripts (interp vs bash): witnesses that need more than one word
+var pinnedScripts = []struct{ script, class string }{
+	// known finding: in assignment values and ${u:-word} words (expand.Literal / wordField with quoteNone)
+	// the backslashes of unquoted literals are kept
+	{`a=b\*c; p "$a"`, "literal_context_keeps_unquoted_backslash"},
+	{`a=b\ c\"d; p "$a"`, "literal_context_keeps_unquoted_backslash"},
+	{`unset u; p ${u:-a\*b}`, "literal_context_keeps_unquoted_backslash"},
+	// the same contexts without backslashes agree with bash
+	{`a=b*c' 'd"e  f"; p "$a"`, ""},
+	{`unset u; IFS=:; p ${u:-a:b} "${u:-a:b}"`, ""},
+	{`IFS=1; p $((212)) x$((11))y "$((212))"`, ""},
+	{`read -a a <<< ""; p "${a[@]}"`, ""},
+}
+
 func main() {
 	o := hx.ParseArgs()
 	defer hx.Flush()
@@ -715,6 +737,10 @@ func main() {
 			}
 			cases = append(cases, k)
 		}
+		for _, ps := range pinnedScripts {
+			k := &kase{ID: len(cases), Stream: "pinned", Script: ps.script, Src: "(script)", scriptOnly: true, pinClass: ps.class}
+			cases = append(cases, k)
+		}
 	default:
 		panic("unknown mode")
 	}
@@ -726,6 +752,15 @@ func main() {
 	bash := hxsplit.Bash(dir, prelude, bodies)
 	for i, k := range cases {
 		k.Bash = bash[i]
+		if k.scriptOnly {
+			k.Interp = hxsplit.RunInterp(dir, prelude+"\n"+k.Script, 5*time.Second)
+			if k.Interp != k.Bash {
+				k.Fails = append(k.Fails, "interp_fields_differ_from_bash")
+				k.Class = k.pinClass
+			}
+			hx.Emit(k)
+			continue
+		}
 		k.runExpand()
 		k.Interp = hxsplit.RunInterp(dir, prelude+"\n"+k.Script, 5*time.Second)
 		k.NoOracle = k.bashUnreliable()
